@@ -7,16 +7,50 @@ SPEC = {
     'parts': [
         {'pkg': 'execute/report', 'pkgname': 'report',
          'src': 'harness/execute/report/c08_test.go', 'test': 'TestVerif_C08_add',
-         'sinks': {'C08_add': 'add_judge'}, 'n': {'quick': 300, 'thorough': 12000}},
+         'sinks': {'C08_add': 'add_judge'}, 'n': {'quick': 300, 'thorough': 9000}},
         {'pkg': 'execute/report', 'pkgname': 'report',
          'src': 'harness/execute/report/c08_test.go', 'test': 'TestVerif_C08_mm',
          'sinks': {'C08_mm': 'mm_judge'}, 'n': {'quick': 300, 'thorough': 12000}},
+        {'pkg': 'execute', 'src': 'harness/execute/c08_test.go', 'test': 'TestVerif_C08_select', 'fakes': True,
+         'sinks': {'C08_sel': 'sel_judge'}, 'n': {'quick': 200, 'thorough': 8000}},
     ],
     'known': {'1': 'F14'},
-    'rule': '',
-    'trusted': [],
-    'assumptions': [],
-    'level_text': '',
-    'level_note': '',
-    'modelled': '',
+    'rule': 'add: report.NewBuilder(mock hasher = message id, codec with controlled size, table gas estimator).Add on 1-4 commit '
+            'reports in order + Build; 1-17 messages each (every 40th case 31-256), three senders per chain with ordered / '
+            'unordered / gapped / repeated nonces, on-chain nonces incl. 2^64-1 and missing entries, first nonce at on-chain, '
+            '+1, +2; executed none/some/prefix/all/foreign; token data 0-2 entries, ready or not; costly subsets; ranges ending '
+            'at 2^64-1; size and gas limits chosen after an unlimited dry run at total, total-1, 3/4, 1/2, 1/4, first report, '
+            'tiny, 0, 2^63-1, 2^63, 2^64-1; tamper stream: wrong / zero root, changed or swapped body, missing / extra / '
+            'foreign-chain / out-of-range message (with and without re-committed root), token data short / long / nil, codec '
+            'error, widened and full uint64 range. Every produced chain report is re-verified in Go with '
+            'merklemulti.VerifyComputeRoot (flag bits decoded from ProofFlagBits) against the committed root and again in Coq. '
+            'The two F14 witnesses are cases 0 and 1. mm: merklemulti NewTree/Prove/VerifyComputeRoot over an arithmetic '
+            'commutative hash, 1-33 (and 255-300) leaves, index sets all/single/subset/empty/unsorted/duplicate/out-of-range, '
+            'and proofs mutated before verification. sel: execute.selectReport with a scripted builder. '
+            'non-trivial = at least one chain report built (add), non-empty index set (mm), at least one commit report (sel); '
+            'distinct by full input',
+    'trusted': ['hashutil keccak HashInternal is an oracle: the model uses the table of the (a,b)->H(a,b) pairs the harness '
+                'computed with the real function (commutative, as HashInternal sorts its arguments); the multiproof theorem '
+                'assumes only commutativity',
+                'MessageHasher.Hash, ExecutePluginCodec.Encode size and gas.EstimateProvider are oracles (universally '
+                'quantified in the theorems; concrete mocks in the harness)',
+                'typeconv.AddressBytesToString is used by the harness to key senders exactly as the builder does',
+                'VerifyComputeRoot: reading past the computed hashes is modelled as an immediate error (the Go code reads a '
+                'junk value and must fail its final position check); exercised by the mutated-proof stream'],
+    'assumptions': ['per-report gas sums do not wrap uint64 (generator keeps message gas <= 90000); max size and gas are uint64',
+                    'commit reports have at most 256 messages for the provability theorem (the verifier\'s own limit)'],
+    'level_text': 'Proof: 11 Coq theorems. Multiproof theorem of merklemulti for ALL trees <= 256 leaves and all ascending '
+                  'index sets under commutativity of the internal hash (induction over layers, FIFO-queue invariant), its '
+                  'necessity; full specification of one Add (membership, eligibility, token-data alignment, limits, executed '
+                  'bookkeeping), no report from commit data that does not reproduce its root, re-verification of every '
+                  'appended report to the committed root, budget invariant and outcome-level limits for selectReport; nonce '
+                  'order refuted twice (F14) and proved outside the recorded class. Correspondence: real builder, real '
+                  'merklemulti and real selectReport run against the model on generated inputs every run',
+    'level_note': 'Trusted: Coq kernel, hand-written model, differential harness; hash / hasher / codec / estimator are oracles. '
+                  'The nonce-order clause is false of the code (F14, recorded): C08_nonce_order_refuted(+_fallback), '
+                  'C08_nonce_order_except_known. No axioms.',
+    'modelled': 'merklemulti NewTree/Prove/VerifyComputeRoot, slicelib BoolsToBitFlags/BitFlagsToBools, ConstructMerkleTree, '
+                'checkMessage/checkMessageNonce, buildSingleChainReportHelper, verifyReport, buildSingleChainReport (greedy '
+                'fallback), builder Add/Build, markNewMessagesExecuted, selectReport; Timestamp/BlockNum of CommitData and '
+                'message bodies beyond id/seq/nonce/sender/source are not modelled (oracle inputs)',
 }
